@@ -28,21 +28,21 @@ var ErrInjected = errors.New("verif: injected storage error")
 
 // World is one engine with its sessions and fault state.
 type World struct {
-	Env    *kernel.Env
-	Pro    *memory.DbProvider
-	DB     *memory.Database
-	Eng    *sqle.Engine
-	nextID uint32
+	Env     *kernel.Env
+	Pro     *memory.DbProvider
+	DB      *memory.Database
+	Eng     *sqle.Engine
+	nextID  uint32
 	nextPid uint64
 
 	// fault injection at memory.edit.*: when armed, the armAt-th edit call
 	// (1-based, counted over calls matching armTable or all when "") fails.
-	editCount  int
-	perTable   map[string]int
-	armAt      int
-	armTable   string
-	fired      bool
-	countAll   int
+	editCount int
+	perTable  map[string]int
+	armAt     int
+	armTable  string
+	fired     bool
+	countAll  int
 	// PermuteOrder lets the tape permute map-derived sequences (ordering seam).
 	PermuteOrder bool
 }
